@@ -420,6 +420,8 @@ enum HistOp {
     Reset,
     Harvest,
     ResetRange(usize, usize),
+    /// clear one page by number
+    ResetBit(usize),
 }
 
 /// All sequences of three operations over a reduced alphabet (writes through several routes,
@@ -443,6 +445,11 @@ fn histories<B: BitmapSlice>(v: &Verdicts, what: &str, placed: &Placed, vs: &Vol
         // a write over the whole container and a reset of its middle
         HistOp::Mem(Op::Write { off: 0, len: n, mis: 0 }),
         HistOp::ResetRange(p, n.saturating_sub(2 * p).max(1)),
+        // single pages cleared by number, and writes that stay inside one page
+        HistOp::ResetBit(0),
+        HistOp::ResetBit(1),
+        HistOp::Mem(Op::Write { off: 0, len: 1, mis: 0 }),
+        HistOp::Mem(Op::Write { off: p, len: 1, mis: 0 }),
     ];
     let mut alpha = alpha;
     if bm.len() > 64 {
@@ -497,6 +504,10 @@ fn histories<B: BitmapSlice>(v: &Verdicts, what: &str, placed: &Placed, vs: &Vol
                                 let last = (x + l.saturating_sub(1)) / p;
                                 ((x / p..=last).filter(|q| *l > 0 && before.contains(q)).collect(), None)
                             }
+                            HistOp::ResetBit(q) => {
+                                bm.reset_bit(*q);
+                                (before.iter().filter(|x| *x == q).cloned().collect(), None)
+                            }
                             HistOp::Mem(_) => unreachable!(),
                         };
                         for q in &cleared {
@@ -529,7 +540,7 @@ fn histories<B: BitmapSlice>(v: &Verdicts, what: &str, placed: &Placed, vs: &Vol
                         continue;
                     }
                     match h {
-                        HistOp::Reset | HistOp::Harvest | HistOp::ResetRange(..) => {}
+                        HistOp::Reset | HistOp::Harvest | HistOp::ResetRange(..) | HistOp::ResetBit(..) => {}
                         HistOp::Mem(op) => {
                             let dirty_before = dirty_pages(bm);
                             let exp = model_op(&state, placed.ptr() as usize, op, tag);
@@ -1198,7 +1209,7 @@ fn migration(ctx: &Ctx) -> (u64, u64) {
 pub fn run(prop: &'static str, tier: Tier, replay: Option<String>) -> i32 {
     let ctx = crate::new_ctx(prop, tier, "model_checking", &replay);
     let thorough = tier.thorough();
-    ctx.set_rule("E1, one enumeration judged by two oracles. (A) tracked VolatileSlices (their bitmaps made directly or grown to size by enlarge, in turn; plain RefSlice, RefSlice at a base offset, nested BaseSlice, ArcSlice, Option Some/None) of 16 and 24 bytes x page sizes {1,2,3,4,5,8,16,N+5} x every derivation chain of up to 2 (thorough 3) links (subslice, offset, split_at either half, get_slice, get_ref->to_slice, get_array_ref->to_slice / ref_at->to_slice; arguments from the boundary alphabet of the page size) x every write and read path of the container alphabet through the derived accessor x start bitmaps clean / checkerboard / all dirty; (B) one mmap region and (C) guest memory with two adjacent regions and a hole, page sizes as above: every route of the byte-access interface at every (address, length), descriptor reads through the real raw-fd adapter over interposed read(2) (full, short, failing after touching a prefix, EINTR), descriptor writes out of guest memory over interposed write(2) (full, short, EIO at once, ENOSPC after a prefix, EINTR, accepting nothing: nothing may be marked), accessors derived through the region/memory API, and write;reset;write histories; all histories of 3 (thorough 5) steps over an alphabet of 14 memory / reset / harvest / reset-range operations with memory and bitmap carried over (also on containers of 136 / 200 / 528 bytes whose bitmaps span two or three 64-page words, with writes and resets straddling the word boundary); single transfers of 64 KiB .. 128 KiB+1 through nine routes into a tracked container of 256 KiB with 4096- and 1000-byte pages. C05: every byte that differs from the pre-operation snapshot must be dirty in the owning region's bitmap at the region's own offset, and over a history a page that was written stays dirty until an operation that names it clears it; plus (E3) all interleavings of one tracked write (20 write paths, incl. the typed and the slice-to-slice copies and reads from a real descriptor with read(2) as a scheduling point) with one fetch-and-clear consumer that copies the reported pages - after a final pass the consumer's image must equal guest memory. C16: dirty-after == dirty-before U pages overlapping the bytes the reference model says were written, and in the histories a reset / reset-range / fetch-and-clear leaves exactly the other pages dirty and reports exactly what was dirty (a failing descriptor read may additionally mark its whole target). State = (memory contents, dirty set); every transition runs on the real objects.");
+    ctx.set_rule("E1, one enumeration judged by two oracles. (A) tracked VolatileSlices (their bitmaps made directly or grown to size by enlarge, in turn; plain RefSlice, RefSlice at a base offset, nested BaseSlice, ArcSlice, Option Some/None) of 16 and 24 bytes x page sizes {1,2,3,4,5,8,16,N+5} x every derivation chain of up to 2 (thorough 3) links (subslice, offset, split_at either half, get_slice, get_ref->to_slice, get_array_ref->to_slice / ref_at->to_slice; arguments from the boundary alphabet of the page size) x every write and read path of the container alphabet through the derived accessor x start bitmaps clean / checkerboard / all dirty; (B) one mmap region and (C) guest memory with two adjacent regions and a hole, page sizes as above: every route of the byte-access interface at every (address, length), descriptor reads through the real raw-fd adapter over interposed read(2) (full, short, failing after touching a prefix, EINTR), descriptor writes out of guest memory over interposed write(2) (full, short, EIO at once, ENOSPC after a prefix, EINTR, accepting nothing: nothing may be marked), accessors derived through the region/memory API, and write;reset;write histories; all histories of 3 (thorough 5) steps over an alphabet of 18 memory / reset / harvest / reset-range / reset-bit operations with memory and bitmap carried over (also on containers of 136 / 200 / 528 bytes whose bitmaps span two or three 64-page words, with writes and resets straddling the word boundary); single transfers of 64 KiB .. 128 KiB+1 through nine routes into a tracked container of 256 KiB with 4096- and 1000-byte pages. C05: every byte that differs from the pre-operation snapshot must be dirty in the owning region's bitmap at the region's own offset, and over a history a page that was written stays dirty until an operation that names it clears it; plus (E3) all interleavings of one tracked write (20 write paths, incl. the typed and the slice-to-slice copies and reads from a real descriptor with read(2) as a scheduling point) with one fetch-and-clear consumer that copies the reported pages - after a final pass the consumer's image must equal guest memory. C16: dirty-after == dirty-before U pages overlapping the bytes the reference model says were written, and in the histories a reset / reset-range / fetch-and-clear leaves exactly the other pages dirty and reports exactly what was dirty (a failing descriptor read may additionally mark its whole target). State = (memory contents, dirty set); every transition runs on the real objects.");
     ctx.assume("raw-pointer writes are exempt as documented; marks through a bare BaseSlice with wrapping offsets are outside both oracles");
     if ctx.replay_of.is_some() {
         println!("replay: the enumeration is deterministic; re-running the quick tier and reporting whether the recorded key fails again");
